@@ -68,7 +68,9 @@ CONSTANTS
   PriorityToAllEngines,                                         \* D1 as coded
   PruneKeepsEqual,                                              \* D3 as coded
   PartialCommit,      \* hypothetical: a failing commit leaves the truth rows of the step behind
-  UpdateTouchesTruth  \* hypothetical: merging an estimate update writes the target's truth epoch
+  UpdateTouchesTruth, \* hypothetical: merging an estimate update writes the target's truth epoch
+  TRank,              \* [Targets -> Nat], the order of the target ids (ties between simultaneous taskings of one sensor)
+  LastMergeWins       \* D13 as coded: the sensor change of the job merged last wins, a failed slew included
 
 None     == "none"
 NoChange == <<0, "none">>       \* sensor not mentioned in sensor_changes
@@ -362,6 +364,15 @@ Decide ==
 \* TaskExecutionRegistration.processResults for the job of target t:
 \*   slewT: tasked sensors that could slew; hitT: those that observed the primary;
 \*   ser: serendipitous observations <<t2, s>> of background targets
+\* TaskingEngine.updateFromAsyncTaskExecution: a sensor can be tasked to several targets in one step (all-visible
+\* policy) and the jobs are merged in any order: the most recent tasking wins (a failed slew re-applies the old
+\* pointing and never replaces a recorded change), ties between successful slews go to the highest target id.
+MergeChange(old, new) ==
+  IF LastMergeWins THEN new
+  ELSE IF new = Keep THEN (IF old = NoChange THEN Keep ELSE old)
+  ELSE IF old \in {NoChange, Keep} THEN new
+  ELSE IF TRank[new[2]] >= TRank[old[2]] THEN new ELSE old
+
 CompleteExec(t, slewT, hitT, ser) ==
   /\ pc = "exec" /\ t \in pend
   /\ slewT \subseteq TaskedOf(decision, t) /\ hitT \subseteq slewT
@@ -381,7 +392,7 @@ CompleteExec(t, slewT, hitT, ser) ==
         /\ missHeld' = FoldSet(LAMBDA s, b : BagAdd(b, <<k, t, s>>, mult), missHeld, misses)
         /\ savedMiss' = FoldSet(LAMBDA s, b : BagAdd(b, <<k, t, s>>, mult), savedMiss, misses)
         /\ changes' = [s \in Sensors |-> IF s \in ss
-                                           THEN (IF s \in slewT THEN <<k, t>> ELSE Keep)
+                                           THEN MergeChange(base[s], IF s \in slewT THEN <<k, t>> ELSE Keep)
                                            ELSE base[s]]
   /\ pend' = pend \ {t}
   /\ UNCHANGED <<k, pc, eng, todo, targets, sensors, engT, engS, truthAt, estAt, estObs, visM, decision, pointing, db, alive,
@@ -549,13 +560,12 @@ RowsExact == \A key \in DOMAIN db.miss : db.miss[key] = 1
 CanonMiss == BagOfSet(decision \ {<<o[1], o[2]>> : o \in {x \in obsStep : x[1] = x[3]}})
 CanonPointing(s) ==
   LET ts == {t \in TargetsOfSensor(decision, s) : <<t, s>> \in slewOK}
-  IN IF Cardinality(ts) = 1 THEN <<k, CHOOSE t \in ts : TRUE>> ELSE pointing[s]
+  IN IF ts # {} THEN <<k, CHOOSE t \in ts : \A u \in ts : TRank[t] >= TRank[u]>> ELSE pointing[s]
 StepResultIsCanonical ==
   AfterExec =>
      /\ missStep = CanonMiss
      /\ \A s \in engS[eng] :
-          Cardinality({t \in TargetsOfSensor(decision, s) : <<t, s>> \in slewOK}) = 1
-             => pointing[s] = CanonPointing(s)
+          {t \in TargetsOfSensor(decision, s) : <<t, s>> \in slewOK} # {} => pointing[s] = CanonPointing(s)
 OnlyVisibleTasked == pc \in {"exec", "applied"} => decision \subseteq Vis
 
 (* C10 / C09 clauses *)
